@@ -302,7 +302,7 @@ impl Monitors {
     /* ------------------------------------------------ C04, C06, C09, C10, C17 (outbound) */
     fn c04_c06_c10_c09_c17_out(&mut self, world: &World, rec: &StepRecord, delta: &Delta) {
         // advance the global "smallest unresolved index" pointer
-        while self.min_unresolved < world.ops.len() && world.ops[self.min_unresolved].resolved() { self.min_unresolved += 1; }
+        while self.min_unresolved < world.ops.len() && world.ops[self.min_unresolved].resolved_before(rec.index) { self.min_unresolved += 1; }
 
         if let Event::Close = rec.event {
             // remember the set interrupted by this close (C09 slow start)
@@ -701,7 +701,7 @@ impl Monitors {
         if let Event::Deliver(_) = rec.event {
             let c = match world.current { Some(c) => c, None => return };
             let conn = &world.conns[c];
-            let became_connected = rec.state_before == EngineState::PendingConnack && rec.state_after == EngineState::Connected;
+            let became_connected = delta.connack_accepted;
             if rec.state_before == EngineState::PendingConnack {
                 let first = delta.new_inbound.first().map(|(_, ii)| &conn.inbound[*ii].packet);
                 if let Some(p) = first {
@@ -711,7 +711,7 @@ impl Monitors {
                             let connect_written = conn.emitted.first().map(|w| w.written_step.is_some() && matches!(w.packet, rf::Packet::Connect(_))).unwrap_or(false);
                             if !connect_written {
                                 self.count("c07.early_connacks");
-                                if became_connected || !rec.result.is_err() {
+                                if became_connected {
                                     let emitted_complete = conn.emitted.first().is_some();
                                     self.viol("C07", "C07.R9-connack-before-connect-flushed", sig(&[("connect_fully_emitted", emitted_complete.to_string())]), rec.index, "a CONNACK that arrived before the CONNECT was flushed was accepted".into());
                                 }
@@ -851,10 +851,14 @@ impl Monitors {
                     if conn.first_error.as_ref().map(|(s, _, _)| *s == rec.index).unwrap_or(false) {
                         // classify the cause
                         let mut cause = "unknown".to_string();
+                        let lower = text.to_lowercase();
                         let mut accused = "?".to_string();
-                        if let Some((_, ii)) = delta.new_inbound.last() {
+                        for (needle, kind) in [("unsuback", "UNSUBACK"), ("suback", "SUBACK"), ("puback", "PUBACK"), ("pubrec", "PUBREC"), ("pubcomp", "PUBCOMP"), ("pubrel", "PUBREL"), ("connack", "CONNACK"), ("connect", "CONNACK"), ("pingresp", "PINGRESP"), ("disconnect", "DISCONNECT"), ("publish", "PUBLISH"), ("auth", "AUTH")] {
+                            if lower.contains(needle) { accused = kind.to_string(); break; }
+                        }
+                        for (_, ii) in &delta.new_inbound {
                             let p = &conn.inbound[*ii].packet;
-                            accused = p.kind().to_string();
+                            if p.kind() != accused { continue; }
                             let id = match p { rf::Packet::Puback(a) | rf::Packet::Pubrec(a) | rf::Packet::Pubcomp(a) => Some(a.packet_id), rf::Packet::Suback(a) => Some(a.packet_id), rf::Packet::Unsuback(a) => Some(a.packet_id), _ => None };
                             if let Some(id) = id {
                                 for op in &world.ops {
@@ -865,9 +869,7 @@ impl Monitors {
                                     }
                                 }
                             }
-                            if let rf::Packet::Unsuback(u) = p { if u.codes.contains(&0x8F) { cause = "unsuback-reason-0x8f".into(); } }
-                        } else if text.contains("reason code") {
-                            cause = "reason-code".into();
+                            if let rf::Packet::Unsuback(u) = p { if u.codes.contains(&0x8F) && lower.contains("reason code") { cause = "unsuback-reason-0x8f".into(); } }
                         }
                         if conn.inbound_decoder.error.is_some() { cause = format!("harness-could-not-frame:{}", conn.inbound_decoder.error.clone().unwrap_or_default()); }
                         let mut norm = String::new();
